@@ -99,9 +99,10 @@ def ensure_facts(log=lambda s: None, need_corpus=True):
         # drop older extractions (disk)
         fbase = os.path.join(WORK, 'facts')
         if os.path.isdir(fbase):
-            for d in os.listdir(fbase):
-                if d != h:
-                    shutil.rmtree(os.path.join(fbase, d), ignore_errors=True)
+            # keep the two most recent other extractions (switching between a patched and the unpatched tree), drop the rest (disk)
+            others = sorted((d for d in os.listdir(fbase) if d != h), key=lambda d: os.path.getmtime(os.path.join(fbase, d)), reverse=True)
+            for d in others[2:]:
+                shutil.rmtree(os.path.join(fbase, d), ignore_errors=True)
         shutil.rmtree(fdir, ignore_errors=True)
         os.makedirs(os.path.join(fdir, 'repo'))
         os.makedirs(os.path.join(fdir, 'corpus'))
